@@ -460,6 +460,9 @@ class Mini:
             try:
                 return getattr(obj, e.attr)
             except AttributeError as ex:
+                if isinstance(obj, Obj):
+                    # the checker's stand-in lacks the attribute: a gap of the model, not a fact about the repository
+                    raise AnalysisError(f"miniinterp: the stand-in object has no attribute {e.attr} (line {getattr(e, 'lineno', '?')})")
                 raise InterpRaise("AttributeError", str(ex), e)
         if isinstance(e, ast.Call) and isinstance(e.func, ast.Name) and e.func.id == "super" and not e.args and getattr(self, "_frames", None):
             so, lvl = self._frames[-1]
